@@ -23,6 +23,9 @@ structure WHist where
   /-- for search mini-histories: the source history and its log (so that consecutive mini-histories share it) -/
   srcOf : Option Nat := none
   baseLog : List (Nat × Nat) := []
+  /-- successful OpenPosition / ClosePosition that left a stored record: (trader, vamm, block height) -/
+  tradeLog : List (Nat × Nat × Nat) := []
+  baseTrade : List (Nat × Nat × Nat) := []
 
 def txKind (kv : KV) : String := kv.str "msg"
 
@@ -141,8 +144,10 @@ def srcHist (kv : KV) : Option Nat :=
 
 def handleWCfg (acc : Acc) (prev : WHist) (kv : KV) (_line : String) : Acc × WHist :=
   -- a search mini-history inherits the liquidation log of the history it continues
-  let log := if srcHist kv == some prev.hist || (kv.get? "src").isSome && prev.srcOf == srcHist kv then prev.liqLog else []
-  (acc, { alive := kv.bool "setup_ok", hist := kv.nat "h", liqLog := log, baseLog := log,
+  let inherits := srcHist kv == some prev.hist || (kv.get? "src").isSome && prev.srcOf == srcHist kv
+  let log := if inherits then prev.liqLog else []
+  let tlog := if inherits then prev.tradeLog else []
+  (acc, { alive := kv.bool "setup_ok", hist := kv.nat "h", liqLog := log, baseLog := log, tradeLog := tlog, baseTrade := tlog,
           srcOf := match srcHist kv with | some h => some h | none => none })
 
 def handleWTx (acc : Acc) (h : WHist) (kv : KV) (line : String) : Acc × WHist :=
@@ -160,7 +165,10 @@ def handleWObs (acc : Acc) (h : WHist) (kv : KV) (_line : String) : Acc × WHist
     let kind := txKind tkv
     let liqLog := if tkv.str "msg" == "liq" && tkv.bool "ok" && (tkv.get? "fault").all (· == "none")
       then (tkv.nat "v", tkv.nat "height") :: h.liqLog else h.liqLog
-    let next : WHist := { h with last := obs, pending := none, liqLog := liqLog,
+    let isTrade := (tkv.str "msg" == "open" || tkv.str "msg" == "close") && tkv.bool "ok" && (tkv.get? "fault").all (· == "none")
+      && obs.w.engine.positions.any (fun p => p.vamm == tkv.nat "v" && p.trader == tkv.nat "snd")
+    let tradeLog := if isTrade then (tkv.nat "snd", tkv.nat "v", tkv.nat "height") :: h.tradeLog else h.tradeLog
+    let next : WHist := { h with last := obs, pending := none, liqLog := liqLog, tradeLog := tradeLog,
                                  seen := if h.seen.length < 200 then obs.w.vamms.map (fun p => (p.1, p.2.st)) ++ h.seen else h.seen }
     match parseTx tkv with
     | none => (acc.report "DISAGREE" "C08" s!"unparsed-tx:{kind}" tline, next, none)
@@ -172,7 +180,8 @@ def handleWObs (acc : Acc) (h : WHist) (kv : KV) (_line : String) : Acc × WHist
       let step : Step :=
         { pre := h.last.w, post := obs.w, env := env, sender := sender, funds := funds, tx := tx, ok := ok,
           xfers := parseXfers (tkv.str "xf"), residue := obs.tmp || obs.sent || obs.liq, err := tkv.str "err",
-          liqsThisBlock := (h.liqLog.filter (fun p => p.2 == env.height)).map (·.1) }
+          liqsThisBlock := (h.liqLog.filter (fun p => p.2 == env.height)).map (·.1),
+          tradedThisBlock := (h.tradeLog.filter (fun p => p.1 == sender && p.2.2 == env.height)).map (·.2.1) }
       -- fault-injected execution (harness `fault` mode): only C08 is meaningful — the injected
       -- failure must fail the whole call and leave every contract's storage and every balance as before
       let faulted := match tkv.get? "fault" with | some f => f != "none" && tkv.bool "fired" | none => false
@@ -197,7 +206,7 @@ def handleWObs (acc : Acc) (h : WHist) (kv : KV) (_line : String) : Acc × WHist
         match World.applyTx h.last.w env sender funds tx with
         | .ok _ => "{model-accepts}"
         | .error _ => "{model-rejects}"
-      let acc := (allChecks step).foldl (fun a pc =>
+      let acc := (allChecks step ++ extraChecks step).foldl (fun a pc =>
         pc.2.foldl (fun a tag =>
           a.report "SPECFAIL" pc.1 (if pc.1 == "C07" then s!"{kind}:{tag}{errClass}{modelVerdict}" else s!"{kind}:{tag}") tline) a) acc
       -- C01 quote recovery across the history
